@@ -485,7 +485,12 @@ pub fn int_div(lhs: &Value, rhs: &Value) -> Result<Value, Error> {
 pub fn pow(lhs: &Value, rhs: &Value) -> Result<Value, Error> {
     match coerce(lhs, rhs, true) {
         Some(CoerceResult::I128(a, b)) => {
-            match TryFrom::try_from(b).ok().and_then(|b| a.checked_pow(b)) {
+            // an exponent beyond u32 only matters through its parity: any base
+            // other than -1, 0 and 1 overflows long before that
+            let exp = u32::try_from(b).ok().or_else(|| {
+                (b > 0 && (-1..=1).contains(&a)).then_some(2 + (b & 1) as u32)
+            });
+            match exp.and_then(|exp| a.checked_pow(exp)) {
                 Some(val) => Ok(int_as_value(val)),
                 None => Err(failed_op("**", lhs, rhs)),
             }
